@@ -159,6 +159,12 @@ extern crate alloc;
 mod collections;
 mod utils;
 
+/// Verification seam (only with `--cfg futures_concurrency_verif`, see the module docs).
+#[cfg(all(futures_concurrency_verif, feature = "std"))]
+#[doc(hidden)]
+#[path = "verif_sync.rs"]
+pub mod __verif_sync;
+
 #[doc(hidden)]
 pub use utils::private;
 
